@@ -169,8 +169,14 @@ def le(a, b):
     return a <= b
 
 
+CONC_TOL = None     # when set (concrete replay of theorems on float results): approximate equality
+
+
 def eq(a, b):
     if _both_conc(a, b):
+        if CONC_TOL is not None and is_num(a) and is_num(b) and not (isinstance(a, int) and isinstance(b, int)):
+            fa, fb = float(a), float(b)
+            return abs(fa - fb) <= CONC_TOL * max(abs(fa), abs(fb)) + 1e-300
         return a == b
     if a is None or b is None:
         return False
@@ -476,25 +482,9 @@ class DType:
         return f"dtype({self.name})"
 
     def can_cast_safe(self, to):
-        order = {"b": 0, "u": 1, "i": 1, "f": 2, "c": 3}
-        a, b = self, to
-        if a == b:
-            return True
-        if order[a.kind] > order[b.kind]:
-            return False
-        if a.kind == b.kind:
-            return a.itemsize <= b.itemsize
-        if a.kind == "b":
-            return True
-        if a.kind in "iu" and b.kind == "f":
-            return a.itemsize * 2 <= b.itemsize or (a.itemsize <= 2 and b.itemsize >= 4) and a.itemsize < b.itemsize
-        if a.kind in "iu" and b.kind == "c":
-            return a.itemsize * 4 <= b.itemsize or (a.itemsize <= 2 and b.itemsize >= 8)
-        if a.kind == "f" and b.kind == "c":
-            return a.itemsize * 2 <= b.itemsize
-        if a.kind == "u" and b.kind == "i":
-            return a.itemsize < b.itemsize
-        return False
+        """np.can_cast(self, to, 'safe') -- answered by the installed NumPy itself."""
+        import numpy as np
+        return bool(np.can_cast(np.dtype(self.name), np.dtype(to.name), "safe"))
 
 
 def result_dtype(*dts):
